@@ -68,11 +68,6 @@ fn oracle(consumer_frozen: bool) -> Oracle {
                 }
             }
         }
-        for c in run.calls.iter() {
-            if let Res::Panicked(m) = &c.res {
-                out.push(Finding::new("caller-panic", format!("panic:{}", normalize_panic(m)), format!("{} panicked: {}", c.op.short(), m)));
-            }
-        }
     })
 }
 
